@@ -241,6 +241,10 @@ def run(e: Engine, rep: Report):
              'loop (the handler may have been left half-way, with the '
              'transaction flags set)')
     r712(e, rep)
+    rep.rule('R7.13', '= C09-G5: when the reader gives up in the middle of '
+             'the message the session ends (what is left of the body is '
+             'never answered line by line, nor waited for)')
+    c09.g5(e, rep, 'R7.13')
     rep.floor('R7.1', 10, 'callback sites')
     rep.floor('R7.3', 12, 'command handlers')
     rep.floor('R7.4', 10, 'mutable reply sends')
@@ -909,7 +913,7 @@ def r77(e: Engine, rep: Report):
 
 
 # ------------------------------------------------------------------ R7.8
-def r78(e: Engine, rep: Report):
+def r78(e: Engine, rep: Report, rule: str = 'R7.8'):
     """The session flags are tested by truthiness (`if not
     self.have_mailfrom`), so what is stored on success must be truthy by
     construction: a constant True, a boolean expression, or a value the
@@ -965,7 +969,7 @@ def r78(e: Engine, rep: Report):
                     truthy = holds(st, (True, canon(v, n.frame)))
                 except Exception:
                     truthy = False
-                rep.check(boolean(v) or truthy, 'R7.8', m.qname,
+                rep.check(boolean(v) or truthy, rule, m.qname,
                           'flag self.%s is set to a value that is truthy '
                           'whenever the command was accepted' % t.attr,
                           'self.%s is tested by truthiness but set to `%s`, '
